@@ -31,6 +31,10 @@ func (app *App) CheckAsyncSwitchAllowed(node *mysql.Node, switchover *Switchover
 
 func (app *App) updateReplMonTS(master string) error {
 	masterNode := app.cluster.Get(master)
+	if masterNode == nil {
+		// master left the registry (background refresh) after this iteration probed it
+		return fmt.Errorf("master %s is not a registered cluster host", master)
+	}
 	ts, err := masterNode.GetReplMonTS(app.config.ReplMonSchemeName, app.config.ReplMonTableName)
 	if err != nil {
 		return fmt.Errorf("failed to get master repl_mon timestamp: %w", err)
